@@ -173,7 +173,7 @@ func solveAll(obs []*Obligation, opt solveOpts) {
 // Discharged reports whether the obligation got its expected answer.
 func (ob *Obligation) Discharged() bool {
 	if ob.ExpectSat {
-		return ob.Result == "sat" || ob.Result == "unknown" // cover: only unsat is a failure
+		return ob.Result != "unsat" && ob.Result != "error" // cover: only unsat is a failure
 	}
 	return ob.Result == "unsat"
 }
